@@ -66,18 +66,19 @@ Definition estep (e : env) (ev : event) : env :=
   end.
 
 (* ------------------------------------------------------------------ RoundRobinPolicy / WhiteListRoundRobinPolicy *)
-(* wl = None: RoundRobinPolicy; wl = Some allowed: WhiteListRoundRobinPolicy (host id = its address) *)
+(* wl = None: RoundRobinPolicy; wl = Some allowed: WhiteListRoundRobinPolicy, allowed h = "host.address in
+   self._allowed_hosts_resolved" (see BWL below: names as the user wrote them, their getaddrinfo resolution, host addresses) *)
 Record rr_state := { rr_live : list Z; rr_pos : Z }.
 Definition rr_init : rr_state := {| rr_live := []; rr_pos := 0 |}.
-Definition allowedb (wl : option (list Z)) (h : Z) : bool :=
-  match wl with None => true | Some a => mem h a end.
+Definition allowedb (wl : option (Z -> bool)) (h : Z) : bool :=
+  match wl with None => true | Some a => a h end.
 
-Definition rr_on_up (wl : option (list Z)) (s : rr_state) (h : Z) : rr_state :=
+Definition rr_on_up (wl : option (Z -> bool)) (s : rr_state) (h : Z) : rr_state :=
   if allowedb wl h then {| rr_live := add_host h (rr_live s); rr_pos := rr_pos s |} else s.
 Definition rr_on_down (s : rr_state) (h : Z) : rr_state :=
   {| rr_live := remove_host h (rr_live s); rr_pos := rr_pos s |}.
 
-Definition rr_step (wl : option (list Z)) (s : rr_state) (e : event) : rr_state :=
+Definition rr_step (wl : option (Z -> bool)) (s : rr_state) (e : event) : rr_state :=
   match e with
   | Populate hs _ r =>
       {| rr_live := dedupe (filter (allowedb wl) hs);
@@ -97,7 +98,7 @@ Definition rr_plan (s : rr_state) (ord : list Z) : list Z :=
   let n := Z.of_nat (length hosts) in
   if n =? 0 then [] else rotate (Z.to_nat (rr_pos s mod n)) hosts.
 
-Definition rr_distance (wl : option (list Z)) (h : Z) : dist := if allowedb wl h then LOCAL else IGNORED.
+Definition rr_distance (wl : option (Z -> bool)) (h : Z) : dist := if allowedb wl h then LOCAL else IGNORED.
 
 (* ------------------------------------------------------------------ DCAwareRoundRobinPolicy *)
 (* _dc_live_hosts: a dict in insertion order *)
@@ -219,16 +220,20 @@ Definition dca_distance (s : dca_state) (h : Z) : dist :=
 (* ------------------------------------------------------------------ the three base policies behind one interface *)
 Inductive base :=
 | BRR
-| BWL (allowed : list Z)
+| BWL (names : list Z) (resolve : Z -> list Z) (addr : Z -> Z)
+    (* the white list as written, socket.getaddrinfo on one entry (any number of addresses), host.address: several hosts may
+       share an address (same IP / different ports, SNI proxy endpoints) *)
 | BDCA (local used : Z) (contact : list Z).
 
 Inductive bstate := SRR (s : rr_state) | SDCA (s : dca_state).
 
-Definition b_wl (b : base) : option (list Z) := match b with BWL a => Some a | _ => None end.
+Definition wl_resolved (names : list Z) (resolve : Z -> list Z) : list Z := flat_map resolve names.
+Definition b_wl (b : base) : option (Z -> bool) :=
+  match b with BWL names resolve addr => Some (fun h => mem (addr h) (wl_resolved names resolve)) | _ => None end.
 
 Definition b_init (b : base) (e : env) : bstate :=
   match b with
-  | BRR | BWL _ => SRR rr_init
+  | BRR | BWL _ _ _ => SRR rr_init
   | BDCA local used contact => SDCA (dca_init local used contact e)
   end.
 
@@ -260,9 +265,25 @@ Definition df_plan (target : option Z) (child_plan : list Z) : list Z :=
   | None => child_plan
   end.
 
+(* TokenAwarePolicy.make_query_plan (repaired code), see Model/TokenAware.v for the inputs.  First loop: replicas that
+   are up and LOCAL for the child, in iteration order (remembered in `yielded`); second loop: the child's plan minus them. *)
+Definition ta_prefix (up : Z -> bool) (cd : Z -> dist) (order : list Z) : list Z :=
+  filter (fun r => up r && dist_eqb (cd r) LOCAL) order.
+Definition ta_rest (yielded child : list Z) : list Z := filter (fun h => negb (mem h yielded)) child.
+Definition ta_plan (routed : bool) (up : Z -> bool) (cd : Z -> dist) (order child : list Z) : list Z :=
+  if routed then ta_prefix up cd order ++ ta_rest (ta_prefix up cd order) child else child.
+
+(* ------------------------------------------------------------------ without _hosts_lock: on_up split in two steps *)
+(* what on_up would be if the bucket were read before the lock is taken (the atomicity audit of checks/C21.py excludes it):
+   step 1 reads the bucket, any other event may run, step 2 writes the stale tuple + the host back *)
+Definition dca_up_read (s : dca_state) (h : Z) : list Z := bget (d_live s) (dca_dc s h).
+Definition dca_up_write (s : dca_state) (h : Z) (cur : list Z) : dca_state :=
+  if mem h cur then s else with_live s (bset (d_live s) (dca_dc s h) (cur ++ [h])).
+
 (* ------------------------------------------------------------------ traces for the correspondence check *)
 (* a history is delivered event by event; queries are steps too (MakePlan).  An observation per step. *)
-Inductive wrap := WBase | WFilter (pred : env -> Z -> bool) | WDefault (target : option Z).
+Inductive wrap := WBase | WFilter (pred : env -> Z -> bool) | WDefault (target : option Z)
+                | WToken (routed : bool) (up : Z -> bool) (order : list Z).
 Inductive item :=
 | Ev (e : event)
 | Q (w : wrap) (ord : list Z).      (* ask for a plan through wrapper w, then MakePlan *)
@@ -285,6 +306,7 @@ Fixpoint trace (b : base) (e : env) (s : bstate) (its : list item) : list (list 
                  | WBase => p
                  | WFilter pred => hf_plan (pred e) p
                  | WDefault t => df_plan t p
+                 | WToken routed up order => ta_plan routed up (b_distance b s) order p
                  end in
       out :: trace b e (b_step b s MakePlan) r
   end.
